@@ -281,3 +281,110 @@ def future_sign_cases():
                         ("rule", "dynamic", ("atom", "a", 0), (("atom", "pos", "a", -1), ("atom", "not", "t", -1))),
                         ("rule", "dynamic", ("atom", "-a", 0), (("atom", "pos", "-a", -1), ("atom", "not", "t", -1)))])
     return out
+
+# --------------------------------------------------------------------------- aliases and near-duplicates
+# telingo caches formulas (and todo entries) by their printed representation; mistakes in that mechanism only show
+# when ONE program contains two theory atoms that are different for clingo but equal — or nearly equal — for telingo.
+
+def alias_pair(r, atoms, head=False, depth=1):
+    """(f1, f2): two differently written formulas that telingo normalises to the same internal formula
+    (`l ;> r` = `l & > r`, `l <; r` = `(< l) & r`, `>> f` = `>* (~ &final | f)`, `0 > f` = `f`, `> f` = `1 > f`)"""
+    G = (lambda d: gen_hform(r, d, atoms)) if head else (lambda d: gen_sform(r, d, atoms))
+    kinds = ["seqn", "fin", "next0", "next1"] + ([] if head else ["seqp", "prev0", "prev1"])
+    k = r.choice(kinds)
+    w = r.random() < 0.5
+    if k == "seqn":
+        l, x = G(depth), G(depth)
+        p = (("seqn", w, l, x), ("b", "and", l, ("next", 1, w, x)))
+    elif k == "seqp":
+        l, x = G(depth), G(depth)
+        p = (("seqp", w, l, x), ("b", "and", ("prev", 1, w, l), x))
+    elif k == "fin":
+        g = G(depth)
+        p = (("fin", g), ("alF", ("b", "or", ("~", ("k", "final")), g)))
+    elif k in ("next0", "prev0"):
+        g = ("b", r.choice(["and", "or"]), G(depth), G(depth)) if r.random() < 0.6 else G(depth + 1)
+        p = ((k[:4], 0, w, g), g)
+    else:
+        g = G(depth)
+        p = ((k[:4], 1, w, g), (k[:4], 1, w, g))      # spelled `> g` / `1 > g` by the renderer (see alias_texts)
+    # the same context around both
+    c = r.random()
+    if c < 0.35:
+        return p
+    if c < 0.6:
+        o = G(0); op = r.choice(["and", "or"])
+        return (("b", op, p[0], o), ("b", op, p[1], o))
+    if c < 0.8:
+        return (("next", 1, w, p[0]), ("next", 1, w, p[1]))
+    if head:
+        return (("alF", p[0]), ("alF", p[1]))
+    return (("~", p[0]), ("~", p[1]))
+
+class _Fixed:
+    """a render style that always / never uses the n-fold spelling of unary next / previous"""
+    def __init__(self, v):
+        self.v = v
+    def random(self):
+        return self.v
+    def choice(self, xs):
+        return xs[0]
+    def randint(self, a, b):
+        return a
+
+def alias_texts(pair):
+    """texts of an alias pair: the first with `> f`, the second with `1 > f`"""
+    import tl
+    return tl.render_tel(pair[0], _Fixed(0.0)), tl.render_tel(pair[1], _Fixed(0.99))
+
+def flatten_path(p):
+    """in-order leaves and operators of the binary skeleton of a path (stars and leaves are atomic)"""
+    if p[0] in ("choice", "seq"):
+        l1, o1 = flatten_path(p[1]); l2, o2 = flatten_path(p[2])
+        return l1 + l2, o1 + [p[0]] + o2
+    return [p], []
+
+def rebuild_path(r, leaves, ops):
+    """a random binary tree over the same in-order sequence"""
+    if len(leaves) == 1:
+        return leaves[0]
+    i = r.randrange(len(ops))
+    return (ops[i], rebuild_path(r, leaves[:i + 1], ops[:i]), rebuild_path(r, leaves[i + 1:], ops[i + 1:]))
+
+def confusable_dforms(r, atoms):
+    """two `&del` formulas whose paths have the same leaves and operators in the same order but are bracketed differently"""
+    for _ in range(50):
+        p = gen_dpath(r, 3, atoms, False)
+        leaves, ops = flatten_path(p)
+        if len(ops) < 2 or len(set(ops)) < 2:
+            continue
+        q = rebuild_path(r, leaves, ops)
+        if q != p:
+            kind = r.choice(["dia", "box"])
+            g = gen_dform(r, r.randint(0, 1), atoms, pdepth=1)
+            return [(kind, p, g), (kind, q, g)]
+    A = lambda x: ("test", ("a", x))
+    return [("dia", ("choice", ("seq", A(atoms[0]), A(atoms[1])), ("skip",)), ("c", True)),
+            ("dia", ("seq", A(atoms[0]), ("choice", A(atoms[1]), ("skip",))), ("c", True))]
+
+def near_variants(r, f):
+    """a formula that differs from f in one detail only (weak/strong flag, n-fold count, operand order, bracketing)"""
+    t = f[0]
+    if t in ("a", "k"):
+        return f
+    if r.random() < 0.5:
+        # descend
+        idx = [i for i, x in enumerate(f) if isinstance(x, tuple)]
+        if idx:
+            i = r.choice(idx)
+            return f[:i] + (near_variants(r, f[i]),) + f[i + 1:]
+    if t in ("prev", "next"):
+        return (t, f[1], not f[2], f[3]) if r.random() < 0.5 else (t, f[1] + 1, f[2], f[3])
+    if t in ("seqn", "seqp"):
+        return (t, not f[1], f[2], f[3])
+    if t == "b" and isinstance(f[2], tuple) and f[2][0] == "b" and f[2][1] != f[1]:
+        # (x op1 y) op2 z  ->  x op1 (y op2 z)
+        return ("b", f[2][1], f[2][2], ("b", f[1], f[2][3], f[3]))
+    if t in ("since", "trigger", "unt", "rel", "b") and len(f) >= 3:
+        return f[:-2] + (f[-1], f[-2])
+    return f
